@@ -20,6 +20,7 @@ from __future__ import annotations
 
 import io
 import math
+import threading
 from functools import partial
 
 import numpy as np
@@ -27,12 +28,29 @@ import numpy as np
 NMAX = 72  # >= max n (60) + slack
 LMAX = 320  # script length (index = number of gradient steps so far, clipped)
 
-_LOG: list = []  # host-side event log of the current run (ordered callbacks append)
+_LOG: list = []  # host-side event log of the current solo run (ordered callbacks append)
+# Concurrent callers (sim/sched.py): every run carries its id in the otherwise unused slot
+# w[NMAX-1] (no row has that tag; its gradient is exactly zero), the callbacks read it back
+# from the data they are handed, and each run logs into its own list. Solo runs have id 0.
+_LOGS: dict = {0: _LOG}
+_LOST: list = []  # events whose run id could not be read (never expected)
+_TLS = threading.local()
+
+
+def _log_of(rid):
+    try:
+        return _LOGS[int(round(float(rid)))]
+    except (KeyError, ValueError, OverflowError):
+        return _LOST
+
+
+def _thread_log():
+    return _LOGS.get(getattr(_TLS, "rid", 0), _LOST)
 
 
 # --------------------------------------------------------------------------- host side
-def _rec_loss_data(x, cond, kd, c, value):
-    _LOG.append(
+def _rec_loss_data(x, cond, kd, c, value, rid=0):
+    _log_of(rid).append(
         (
             "LOSS",
             np.array(x, copy=True),
@@ -44,16 +62,16 @@ def _rec_loss_data(x, cond, kd, c, value):
     )
 
 
-def _rec_loss_data_nocond(x, kd, c, value):
-    _rec_loss_data(x, None, kd, c, value)
+def _rec_loss_data_nocond(x, kd, c, value, rid=0):
+    _rec_loss_data(x, None, kd, c, value, rid)
 
 
-def _rec_loss_vi(kd, c, value):
-    _LOG.append(("LOSS", None, None, np.array(kd, copy=True), float(c), float(value)))
+def _rec_loss_vi(kd, c, value, rid=0):
+    _log_of(rid).append(("LOSS", None, None, np.array(kd, copy=True), float(c), float(value)))
 
 
-def _rec_update(gw, c_before, n_other):
-    _LOG.append(("UPDATE", np.array(gw, copy=True), float(c_before), int(n_other)))
+def _rec_update(gw, c_before, n_other, rid=0):
+    _log_of(rid).append(("UPDATE", np.array(gw, copy=True), float(c_before), int(n_other)))
 
 
 # --------------------------------------------------------------------------- jax side
@@ -110,11 +128,11 @@ def _scripted_data_loss(params, static, x, condition=None, key=None):
     kd = _key_data(key)
     if condition is None:
         io_callback(
-            _rec_loss_data_nocond, None, sg(x), kd, sg(c), sg(value), ordered=True
+            _rec_loss_data_nocond, None, sg(x), kd, sg(c), sg(value), sg(w[NMAX - 1]), ordered=True
         )
     else:
         io_callback(
-            _rec_loss_data, None, sg(x), sg(condition), kd, sg(c), sg(value), ordered=True
+            _rec_loss_data, None, sg(x), sg(condition), kd, sg(c), sg(value), sg(w[NMAX - 1]), ordered=True
         )
     return value
 
@@ -131,7 +149,7 @@ def scripted_vi_loss(params, static, key):
     s = w[0]  # the gradient marks w[0]: one count per gradient step
     idx = jnp.clip(jnp.round(c).astype(jnp.int32), 0, LMAX - 1)
     value = sg(script)[idx] + (s - sg(s))
-    io_callback(_rec_loss_vi, None, _key_data(key), sg(c), sg(value), ordered=True)
+    io_callback(_rec_loss_vi, None, _key_data(key), sg(c), sg(value), sg(w[NMAX - 1]), ordered=True)
     return value
 
 
@@ -154,12 +172,14 @@ def _make_counting_optimizer():
         updates["c"] = jnp.ones_like(grads["c"])
         updates["w"] = grads["w"]
         c_before = params["c"] if params is not None else jnp.float32(-1)
+        rid = params["w"][NMAX - 1] if params is not None else jnp.float32(0)
         io_callback(
             _rec_update,
             None,
             sg(grads["w"]),
             sg(c_before),
             jnp.int32(n_other),
+            sg(rid),
             ordered=True,
         )
         return updates, state
@@ -193,11 +213,11 @@ class _JrProxy:
 
         out = self._real.permutation(key, x, *a, **k)
         try:
-            if not isinstance(out, jax.core.Tracer) and getattr(out, "ndim", 0) >= 1:
+            if not isinstance(out, jax.core.Tracer) and getattr(out, "ndim", 0) >= 1 and getattr(_TLS, "perm", True):
                 jax.effects_barrier()  # order this host event after pending callbacks
                 arr = np.asarray(out)
                 col0 = arr.reshape(arr.shape[0], -1)[:, 0]
-                _LOG.append(("PERM", np.array(col0, copy=True), np.asarray(_key_data(key))))
+                _thread_log().append(("PERM", np.array(col0, copy=True), np.asarray(_key_data(key))))
         except Exception:  # noqa: BLE001 - the proxy must never break the run
             pass
         return out
@@ -206,9 +226,10 @@ class _JrProxy:
 class Seams:
     """Context manager installing the module-attribute seams; restores on exit."""
 
-    def __init__(self, *, progress: bool, perm_proxy: bool):
+    def __init__(self, *, progress: bool, perm_proxy: bool, thread_aware: bool = False):
         self.progress = progress
         self.perm_proxy = perm_proxy
+        self.thread_aware = thread_aware  # concurrent group: each caller thread has its own stream
         self._saved = []
         self.stream = io.StringIO()
         self.notes = {}
@@ -221,7 +242,13 @@ class Seams:
         if self.progress:
             from tqdm import tqdm as real_tqdm
 
-            fake = partial(real_tqdm, file=self.stream, mininterval=0)
+            if self.thread_aware:
+                default = self.stream
+
+                def fake(*a, **k):
+                    return real_tqdm(*a, file=getattr(_TLS, "stream", default), mininterval=0, **k)
+            else:
+                fake = partial(real_tqdm, file=self.stream, mininterval=0)
             for mod in (df, vf):
                 if hasattr(mod, "tqdm"):
                     self._saved.append((mod, "tqdm", mod.tqdm))
@@ -300,35 +327,64 @@ def make_key(world):
     return jr.PRNGKey(world["key_seed"])
 
 
-def make_dist(world):
+def make_dist(world, rid=0):
     import jax.numpy as jnp
     from flowjax.wrappers import NonTrainable
 
     return {
         "c": jnp.zeros((), jnp.float32),
-        "w": jnp.zeros((NMAX,), jnp.float32),
+        "w": jnp.zeros((NMAX,), jnp.float32).at[NMAX - 1].set(float(rid)),
         "script": NonTrainable(jnp.asarray(script_array(world))),
         "aux": jnp.array([7, 8, 9], jnp.int32),
     }
 
 
 # --------------------------------------------------------------------------- run
+class _MemberSeams:
+    """Seams of a member of a concurrent group: the module attributes are installed once by
+    the group (thread-aware); the member only owns its progress stream."""
+
+    def __init__(self):
+        self.stream = io.StringIO()
+        self.notes = dict(getattr(_TLS, "group_notes", {}))
+
+    def __enter__(self):
+        _TLS.stream = self.stream
+        return self
+
+    def __exit__(self, *exc):
+        return False
+
+
 def run_world(world: dict) -> dict:
     """Execute one world; return ``{"events": [...], "out": {...}}`` (plain python/numpy)."""
+    if world.get("kind") == "group":
+        from sim import concurrent_a
+
+        return concurrent_a.run_group(world)
+    return run_single(world)
+
+
+def run_single(world: dict, rid: int = 0, install_seams: bool = True) -> dict:
+    """One training run. ``rid`` > 0: a member of a concurrent group (own event log; the seams
+    are installed once by the group, not per member)."""
     import jax
 
     world = normalise_world(world)
-    dist = make_dist(world)
+    dist = make_dist(world, rid)
     key = make_key(world)
-    _LOG.clear()
+    log = _LOGS.setdefault(rid, [])
+    _TLS.rid = rid
+    _TLS.perm = bool(world.get("perm_proxy", True) and world["loop"] == "data")
+    log.clear()
     caller_key = np.asarray(_key_data(key)).tolist()
     exception = None
     out_dist, out_losses, progress_len, notes = None, {}, 0, {}
     try:
-        with Seams(
+        with (Seams(
             progress=world.get("show_progress", False),
             perm_proxy=world.get("perm_proxy", True) and world["loop"] == "data",
-        ) as seams:
+        ) if install_seams else _MemberSeams()) as seams:
             if world["loop"] == "data":
                 from flowjax.train import fit_to_data
 
@@ -378,8 +434,8 @@ def run_world(world: dict) -> dict:
             jax.effects_barrier()
         except Exception:  # noqa: BLE001
             pass
-    raw = list(_LOG)
-    _LOG.clear()
+    raw = list(log)
+    log.clear()
 
     events = []
     for seq, ev in enumerate(raw):
@@ -455,6 +511,10 @@ def run_world(world: dict) -> dict:
         )
         out["c"] = float(out_dist["c"])
         w = np.asarray(out_dist["w"])
+        if rid:
+            out["rid_intact"] = bool(w[NMAX - 1] == float(rid))
+            w = w.copy()
+            w[NMAX - 1] = 0.0
         out["w"] = {int(i): float(w[i]) for i in np.nonzero(w)[0]}
         out["w_finite"] = bool(np.all(np.isfinite(w)))
     return {"events": events, "out": out}
